@@ -6,8 +6,8 @@ import itertools
 
 from ..common import arch
 from ..engine import Result
-from ..refmodel import label_model
-from ..spaces import NAMINGS, admissible_pairs, nodes, rename, trees
+from ..refmodel import label_model, truncate
+from ..spaces import NAMINGS, NAMING_SELFPREFIX, admissible_pairs, leaves, nodes, rename, trees
 
 import pytestarch.eval_structure.networkxgraph as nxg  # noqa: E402
 
@@ -45,6 +45,12 @@ def plan(tier, seed):
             for naming in namings:
                 kk = k if (tier == "thorough" or n <= 4) else 2  # quick: three nested keys on trees up to 4 modules
                 shards.append({"tree": t, "naming": naming, "k": kk, "bound": f"trees<={n_max} alias keys<={k} (n=5: {kk}) naming={naming}" if kk != k else f"trees<={n_max} alias keys<={k} naming={naming}"})
+            if n <= 4 or tier == "thorough":
+                # a child repeats the name of its package (r.r, r.ra, r.r.r); level-limited and implicit-ancestor architectures
+                shards.append({"tree": t, "naming": "selfprefix", "k": 2, "bound": f"trees<={n_max} alias keys<=2 naming=selfprefix"})
+                if n >= 3:
+                    for variant in ("limit1", "implicit"):
+                        shards.append({"tree": t, "naming": "identity", "k": 2, "variant": variant, "bound": f"trees<={n_max} alias keys<=2 variant={variant}"})
     return {"shards": shards, "require_nonzero": ["label:aliased", "label:plain", "unknown-key:ERR", "spacing"]}
 
 
@@ -62,17 +68,31 @@ def one_call(ev, ns, aliases, spacing, extra, rec):
     return ("OK", list(rec.calls))
 
 
-def check(ns, I, aliases, spacing, extra, res, ev=None):
+def build_variant(ns, I, variant):
+    """-> (evaluable, modules the architecture must consist of).
+    plain: every module handed to the constructor; limit1: level_limit=1 (modules below the limit
+    do not exist in the architecture); implicit: only the leaf modules are handed over, their
+    ancestor packages exist because the hierarchy implies them (as for module_path below root)."""
+    if variant == "limit1":
+        return arch(ns, I, 1), sorted({truncate(n, 1) for n in ns})
+    if variant == "implicit":
+        return arch(leaves(ns), I), list(ns)
+    return arch(ns, I), list(ns)
+
+
+def check(ns, I, aliases, spacing, extra, res, ev=None, variant="plain"):
     """Returns a violation tuple or None.  ev: evaluable to (re-)use; None = a fresh one."""
     rec = Recorder()
     old = nxg.draw_networkx
     nxg.draw_networkx = rec
     try:
+        fresh, eff = build_variant(ns, I, variant)
         if ev is None:
-            ev = arch(ns, I)
+            ev = fresh
         out = one_call(ev, ns, aliases, spacing, extra, rec)
     finally:
         nxg.draw_networkx = old
+    ns = eff  # from here on: the modules of the architecture as built
     unknown = [k for k in (aliases or {}) if k not in ns]
     if res is not None:
         res.transitions += 1
@@ -127,7 +147,8 @@ def run_shard(shard, tier, seed):
     res = Result(shard["bound"])
     t = tuple(_tuplify(shard["tree"]))
     base = nodes(t)
-    m = NAMINGS[shard["naming"]]
+    m = NAMING_SELFPREFIX if shard["naming"] == "selfprefix" else NAMINGS[shard["naming"]]
+    variant = shard.get("variant", "plain")
     ns = [rename(n, m) for n in base]
     pairs = admissible_pairs(base)
     I = [(rename(a, m), rename(b, m)) for a, b in pairs[:2]]
@@ -141,18 +162,18 @@ def run_shard(shard, tier, seed):
                 cases.append((dict(zip(keys, vals)), None))
     # every call is made twice: on one evaluable shared by all calls of this shard (so that state
     # kept between calls is exercised) and, if that disagrees with the model, on a fresh one
-    shared = arch(ns, I)
+    shared = build_variant(ns, I, variant)[0]
     history = []
     for aliases, _ in cases:
         for spacing in (None, 0.5):
             for extra in extras:
                 if spacing is not None and extra and aliases and len(aliases) > 1:
                     continue  # keyword pass-through is independent of the alias map size
-                v = check(ns, I, aliases, spacing, extra, res, ev=shared)
+                v = check(ns, I, aliases, spacing, extra, res, ev=shared, variant=variant)
                 call_rec = {"aliases": aliases, "spacing": spacing, "extra": extra}
                 if v:
-                    case = {"modules": ns, "imports": I, "aliases": aliases, "spacing": spacing, "extra": extra}
-                    if check(ns, I, aliases, spacing, extra, None) is None:
+                    case = {"modules": ns, "imports": I, "aliases": aliases, "spacing": spacing, "extra": extra, "variant": variant}
+                    if check(ns, I, aliases, spacing, extra, None, variant=variant) is None:
                         # only after earlier calls on the same evaluable: keep the shortest suffix that reproduces
                         for n_prev in (1, 2, len(history)):
                             case["history"] = history[-n_prev:] if n_prev else []
@@ -166,9 +187,9 @@ def run_shard(shard, tier, seed):
         if bad in ns:
             continue
         for known in ({}, {ns[0]: "A"}):
-            v = check(ns, I, dict(known, **{bad: "B"}), None, {}, res)
+            v = check(ns, I, dict(known, **{bad: "B"}), None, {}, res, variant=variant)
             if v:
-                res.violation(v[0], {"modules": ns, "imports": I, "aliases": dict(known, **{bad: "B"}), "spacing": None, "extra": {}}, v[1], v[2])
+                res.violation(v[0], {"modules": ns, "imports": I, "aliases": dict(known, **{bad: "B"}), "spacing": None, "extra": {}, "variant": variant}, v[1], v[2])
     res.sample({"modules": ns, "aliases": {ns[1]: "A"}, "expected_labels": {x: label_model(x, {ns[1]: "A"}) for x in ns}})
     return res
 
@@ -180,11 +201,12 @@ def _tuplify(t):
 def _check_case(case):
     I = [tuple(e) for e in case["imports"]]
     ev = None
+    variant = case.get("variant", "plain")
     if case.get("history"):
-        ev = arch(case["modules"], I)
+        ev = build_variant(case["modules"], I, variant)[0]
         for h in case["history"]:
-            check(case["modules"], I, h["aliases"], h["spacing"], h["extra"], None, ev=ev)
-    return check(case["modules"], I, case["aliases"], case["spacing"], case["extra"], None, ev=ev)
+            check(case["modules"], I, h["aliases"], h["spacing"], h["extra"], None, ev=ev, variant=variant)
+    return check(case["modules"], I, case["aliases"], case["spacing"], case["extra"], None, ev=ev, variant=variant)
 
 
 def minimise(v):
@@ -201,7 +223,7 @@ def minimise(v):
                 case = trial
     r = _check_case(case)
     v = dict(v, case=case, expected=r[1], observed=r[2])
-    v["signature"] = f"{v['kind']}:keys{len(case['aliases'] or {})}"
+    v["signature"] = f"{v['kind']}:keys{len(case['aliases'] or {})}" + (f":{case['variant']}" if case.get("variant", "plain") != "plain" else "")
     return v
 
 
